@@ -4,6 +4,8 @@ Stateless: an operator raises iff the operand value says so, so the uninstrument
 module raises at exactly the same operator.
 """
 
+import time
+
 _EXC = (TypeError, ValueError, KeyError, RuntimeError, ZeroDivisionError)
 
 
@@ -19,6 +21,10 @@ _BASE_EXC = (SystemExit, KeyboardInterrupt, GeneratorExit, Teardown)
 
 
 def _raise(mode):
+    if mode == 20:
+        # does not raise: the operator blocks (inside the tracer callback that evaluates it) and then answers
+        time.sleep(30)
+        return
     if mode >= 10:
         raise _BASE_EXC[(mode - 10) % len(_BASE_EXC)]("boom")
     if mode >= len(_EXC):
@@ -322,3 +328,45 @@ def tail_pair(a, b):
     if a in (b, b + 1):
         return "near"
     return "desc"
+
+
+class Moody:
+    """Attribute access that raises (property getter / __getattr__), decided by the value only."""
+
+    def __init__(self, v, mode=1):
+        self.v = v
+        self.mode = mode
+
+    @property
+    def mood(self):
+        if self.v == -6:
+            _raise(self.mode)
+        return self.v * 2
+
+    def __getattr__(self, name):
+        # only reached for attributes that do not exist
+        if name == "ghost" and self.v == -7:
+            _raise(self.mode)
+        raise AttributeError(name)
+
+
+def guarded_attr(v, mode):
+    m = Moody(v, mode)
+    try:
+        x = m.mood
+        r = "mood" if x > 4 else "calm"
+    except _EXC + (Boom,):
+        r = "x"
+    return _after(r, v)
+
+
+def guarded_ghost(v, mode):
+    m = Moody(v, mode)
+    try:
+        x = m.ghost
+        r = "seen"
+    except AttributeError:
+        r = "none"
+    except _EXC + (Boom,):
+        r = "x"
+    return _after(r, v)
